@@ -21,8 +21,12 @@ RULE = ("part rtps: one datagram per case, `dec <hex>`: (a) valid encodings of g
 ASSUMPTIONS = [
     "part rtps: inputs up to 4 KiB in the differential run (the Lean driver decodes them too); the allocation guard of "
     "the harness (counting global allocator, 64 MiB + 64 x input per op) and catch_unwind observe the real decoder",
-    "memory is measured as the octets held by the decoded value (payloads, parameter values, 24 per locator); the "
-    "bound content <= input length is proved for messages without INFO_REPLY (finding D-wire-3 otherwise)",
+    "memory is measured as the octets held by the decoded value (payloads, parameter values, 24 per locator); the bound "
+    "content + 4 x submessages + 20 <= input length is proved for the decoder with fixes/D-wire-3.patch "
+    "(C07_rtps_size); measured heap of the real decoder stays below 23 x input (16 000 PAD submessages: 88-octet enum "
+    "entries in a doubling Vec)",
+    "the model variant compared with (op suffix @5eam) is selected by probing the implementation with the exemplars "
+    "of D5/D-wire-1, D-wire-3, D-wire-4 and D-wire-2 (wire_common.model_suffix)",
 ]
 D5 = "fragment-set-numbits-over-256"
 DW1 = "fragment-number-overflow"
@@ -67,9 +71,9 @@ def rtps_oracle(case, out):
     if len(m["subs"]) > max(0, (len(b) - 20) // 4) or len(m["subs"]) > 65536:
         bad(f"{len(m['subs'])} submessages decoded from {len(b)} octets")
     size = W.content_size(m)
-    if size > len(b):
+    if size + 4 * len(m["subs"]) + 20 > len(b):       # C07_rtps_size: content + 4 per submessage + header <= input
         has_reply = any(s["k"] == "IREPLY" and (s["uni"] or s["multi"]) for s in m["subs"])
-        bad(f"decoded value holds {size} octets, the input has {len(b)}", DW3 if has_reply else None)
+        bad(f"decoded value holds {size} octets in {len(m['subs'])} submessages, the input has {len(b)}", DW3 if has_reply else None)
     for s in m["subs"]:
         if "set" in s and s["set"]["members"] is None:
             overflow = s["k"] in ("GAP", "ACK") and s["set"]["nb"] <= 256 and s["set"]["base"] + s["set"]["nb"] - 1 > W.I64MAX
@@ -181,7 +185,6 @@ PARTS = [
 ]
 
 
-# the property is claimed in MANIFEST.json only when all three decoder families are present
 CLAIMED = True   # parts present: see PARTS; the XCDR and parameter-list parts are appended when their engines are merged
 
 
@@ -206,19 +209,18 @@ def run(ctx):
 
 LEVEL_TEXT = ("RTPS part: kernel-checked Lean theorems over ALL octet strings for the model of RtpsMessageRead::try_from "
               "and every submessage parser (Model/Wire.lean, panic-aware: every slice index, subtraction, addition and "
-              "cast on input-controlled values is an explicit outcome). The code as it is CAN panic in exactly one "
-              "parser: FragmentNumberSet::try_read_from_bytes (numBits > 256 -> bitmap[8], D5; base + delta overflowing "
-              "u32, D-wire-1), witnessed by C07_rtps_numbits_counterexample / C07_rtps_fragment_overflow_counterexample "
-              "and replayed on the real code; C07_rtps_total_partial proves that this is the only panic source (any "
-              "input whose decoding panics contains such a NACK_FRAG; C07_rtps_fragset_panic_iff is the exact condition), "
-              "C07_rtps_total_fixed proves totality of the decoder with fixes/D5.patch, C07_rtps_submessage_count and "
-              "C07_rtps_size_* bound the decoded value (linear without INFO_REPLY, quadratic witness with it). The model "
-              "is tied to the code by decoding ~10^4 (quick) valid, mutated and random datagrams on both and comparing "
-              "every decoded field (against the as-is model while the repository panics on the D5/D-wire-1 exemplars, "
-              "against the fixed model once it rejects them); the oracle checks no panic, allocation guard, and decoded "
-              "size <= input.")
+              "cast on input-controlled values is an explicit outcome). For the repository main with fixes/D-wire-3.patch "
+              "and fixes/D-wire-4.patch: C07_rtps_total (never panics), C07_rtps_size (octets held + 4 per submessage + 20 "
+              "<= input length, INFO_REPLY included), C07_rtps_submessage_count, C07_rtps_accessors_total (set() of every "
+              "decoded SequenceNumberSet / FragmentNumberSet is total). The repaired defects D5, D-wire-1, D-wire-3, "
+              "D-wire-4 are kept as kernel-checked regression witnesses on the earlier decoders (decodeOrig / decodeMain) "
+              "together with the exact panic condition of the old fragment-set reader. The model is tied to the code by "
+              "decoding ~10^4 (quick) valid, mutated and random datagrams on both and comparing every decoded field; the "
+              "model variant follows the tree under test (probe of the exemplars); the oracle checks no panic, "
+              "allocation guard, accessor totality and the size bound.")
 LEVEL_NOTE = ("Trusted: Lean kernel; hand-written model Model/Wire.lean; differential harness with catch_unwind and a counting "
-              "allocator. Parameter-list and XCDR decoder parts are separate modules of this property. Open findings: "
-              "D5, D-wire-1 (panics), D-wire-3 (INFO_REPLY quadratic memory), D-wire-4 (set() accessor overflow).")
+              "allocator. Parameter-list and XCDR decoder parts are separate modules of this property. The full theorems "
+              "speak about main + fixes/D-wire-3.patch + fixes/D-wire-4.patch; on a tree without them the check reports the "
+              "corresponding findings (D-wire-3, D-wire-4) again.")
 TECHNIQUE = "Lean 4 theorems (case analysis over a panic-aware decoder model, induction over the submessage loop) + differential correspondence under catch_unwind and an allocation guard"
 DESIGN_REF = "DESIGN.md section 5 C07"
